@@ -24,7 +24,8 @@ type rdOp struct {
 	Range           bool
 	File, Blk, Span int64
 	DataLen         int
-	AddLen, CopyLen int // bsdiff controls
+	DataSum         string // digest of the data of a DATA op
+	AddLen, CopyLen int    // bsdiff controls
 	Seek            int64
 }
 
@@ -112,7 +113,7 @@ func rdDecode(patch []byte) (*rdPatch, error) {
 				case pwr.SyncOp_BLOCK_RANGE:
 					s.Ops = append(s.Ops, rdOp{Range: true, File: op.FileIndex, Blk: op.BlockIndex, Span: op.BlockSpan})
 				case pwr.SyncOp_DATA:
-					s.Ops = append(s.Ops, rdOp{DataLen: len(op.Data)})
+					s.Ops = append(s.Ops, rdOp{DataLen: len(op.Data), DataSum: lib.Digest(op.Data)})
 				default:
 					return nil, fmt.Errorf("file %d: op type %d", i, op.Type)
 				}
